@@ -1,7 +1,7 @@
 (* C23Proofs: statements of property C23 over the store models. *)
 From Coq Require Import List Bool ZArith String Lia.
 From Verif Require Import Base.RunLib Store.KVPrims Store.KVLemmas Store.Ops Store.Status Store.Spec
-  Store.EtcdModel Store.RedisModel Store.Case Store.EtcdProofs.
+  Store.EtcdModel Store.RedisModel Store.Case Store.EtcdProofs Store.RedisProofs.
 Import ListNotations.
 Local Open Scope Z_scope.
 Local Open Scope string_scope.
@@ -72,6 +72,78 @@ Proof.
   exists [OAddPod "p0" "d"; OAddPod "p1" "d"; OAddNode (nd0 "p0") "" "" ""], (OAddNode (nd0 "p1") "" "" ""), EExists.
   split; [reflexivity|]. split; [vm_compute; reflexivity|]. vm_compute. discriminate.
 Qed.
+
+(* ---- Redis: what is true.  On histories whose every step is redis-safe in
+   the abstract state it is taken in (no create of a partially existing entity,
+   AddWorkload-with-processing only with an existing counter and a new
+   workload, node status only for existing nodes, duplicate-free name lists),
+   the Redis store takes exactly the specified steps. ---- *)
+Definition redis_refines_spec_partial_stmt : Prop :=
+  forall h : list op, safe_history s_init h = true ->
+    fst (run rstep r_init h) = fst (run spec_step s_init h) /\
+    Forall2 res_equiv (snd (run rstep r_init h)) (snd (run spec_step s_init h)).
+Lemma nodup_init : NoDup (map fst (r_kv r_init)).
+Proof. constructor. Qed.
+Lemma redis_refines_spec_partial_holds : redis_refines_spec_partial_stmt.
+Proof. intros h SH. apply (rrun_refines h r_init nodup_init SH). Qed.
+
+(* both stores behave identically on those histories *)
+Definition equiv_stmt : Prop :=
+  forall h : list op, safe_history s_init h = true ->
+    abs (fst (run estep e_init h)) = fst (run rstep r_init h) /\
+    Forall2 res_equiv (snd (run rstep r_init h)) (snd (run estep e_init h)).
+Lemma equiv_holds : equiv_stmt.
+Proof.
+  intros h SH. destruct (redis_refines_spec_partial_holds h SH) as [R1 R2].
+  pose proof (etcd_refines_spec_holds h) as E. rewrite E in R1, R2. cbn [fst snd] in R1, R2.
+  split; [symmetry; exact R1 | exact R2].
+Qed.
+
+Lemma run_app : forall {S} (step : S -> op -> S * result) h1 h2 s,
+  run step s (h1 ++ h2) =
+  (fst (run step (fst (run step s h1)) h2), (snd (run step s h1) ++ snd (run step (fst (run step s h1)) h2))%list).
+Proof.
+  induction h1 as [|o t IH]; intros h2 s; cbn [run app fst snd].
+  - destruct (run step s h2); reflexivity.
+  - destruct (step s o) as [s1 r]. rewrite IH. destruct (run step s1 t) as [s2 rs]. cbn [fst snd].
+    destruct (run step s2 h2); reflexivity.
+Qed.
+Lemma safe_history_app : forall h1 h2 s,
+  safe_history s (h1 ++ h2) = safe_history s h1 && safe_history (fst (run spec_step s h1)) h2.
+Proof.
+  induction h1 as [|o t IH]; intros h2 s; cbn [safe_history app run fst]; [reflexivity|].
+  rewrite IH, andb_assoc. destruct (spec_step s o) as [s1 r]. cbn [fst].
+  destruct (run spec_step s1 t); reflexivity.
+Qed.
+Lemma spec_run_nodup : forall h s, NoDup (map fst (r_kv s)) -> NoDup (map fst (r_kv (fst (run spec_step s h)))).
+Proof.
+  induction h as [|o t IH]; intros s N; cbn [run fst]; [exact N|].
+  pose proof (spec_nodup s o N) as N1. destruct (spec_step s o) as [s1 r]. cbn [fst] in N1.
+  specialize (IH s1 N1). destruct (run spec_step s1 t). exact IH.
+Qed.
+
+(* a create that fails on Redis leaves the store unchanged, on redis-safe histories *)
+Definition redis_failed_create_noop_partial_stmt : Prop :=
+  forall (h : list op) (o : op) (e : err),
+    let s := fst (run rstep r_init h) in
+    safe_history s_init (h ++ [o]) = true ->
+    is_create o = true -> snd (rstep s o) = RErr e -> fst (rstep s o) = s.
+Lemma redis_failed_create_noop_partial_holds : redis_failed_create_noop_partial_stmt.
+Proof.
+  intros h o e s SH C R. rewrite safe_history_app in SH. apply andb_true_iff in SH. destruct SH as [S1 S2].
+  cbn [safe_history] in S2. rewrite andb_true_r in S2.
+  destruct (redis_refines_spec_partial_holds h S1) as [E _]. fold s in E. rewrite <- E in S2.
+  assert (N : NoDup (map fst (r_kv s))) by (rewrite E; apply spec_run_nodup; apply nodup_init).
+  destruct (rstep_refines s o N S2) as [F1 F2]. rewrite R in F2. rewrite F1.
+  destruct (spec_step s o) as [s' r'] eqn:ST. cbn [fst snd] in *.
+  destruct r' as [|e'|]; cbn in F2; try contradiction.
+  apply (spec_failed_create_noop s o s' e' C ST).
+Qed.
+
+Example safe_history_example :
+  safe_history s_init [OAddPod "p0" "d"; OAddNode (nd0 "p0") "" "" ""; OAddNode (nd0 "p0") "" "" "";
+                       OSetNodeStatus "n0" "p0" 5; OGetNodesByPod "" [] false] = true.
+Proof. vm_compute. reflexivity. Qed.
 
 (* the hypotheses of the statements are satisfiable / the models are not vacuous *)
 Example etcd_history_example :
